@@ -114,7 +114,7 @@ func diffFields(a, b map[string]string) []string {
 }
 
 func C09(r *vf.Run) {
-	r.Rule = "random 80-byte header contents with the two discriminating bytes forced so versions 1/2/3 are equally covered, inside images of several sizes; every field compared by name against an independent offset table; all 80x255 single-byte perturbations of base headers; a cell is (version, image-size class) or (version, perturbed offset)"
+	r.Rule = "random 80-byte header contents with the two discriminating bytes forced so versions 1/2/3 are equally covered, inside images of several sizes, parsed by fresh ROM/Header objects and by objects that parsed a different header (of another version) just before; every field compared by name against an independent offset table; all 80x255 single-byte perturbations of base headers; a cell is (version, image-size class) or (version, perturbed offset)"
 	r.Assume = []string{"header lives at file offset $7FB0 (NewROM's HeaderOffset)"}
 	sizes := []int{0x8000, 0x8000 + 1, 0x8000 + 0x123, 0x10000, 0x100000}
 
@@ -153,9 +153,14 @@ func C09(r *vf.Run) {
 		return raw
 	}
 
-	type bufs struct{ img, orig map[int][]byte }
+	type bufs struct {
+		img, orig map[int][]byte
+		rom       map[int]*snes.ROM // a ROM object kept alive and re-parsed with different contents
+		prevVer   map[int]int
+		scratch   *snes.Header
+	}
 	newBufs := func(g *vf.Rng) *bufs {
-		b := &bufs{map[int][]byte{}, map[int][]byte{}}
+		b := &bufs{map[int][]byte{}, map[int][]byte{}, map[int]*snes.ROM{}, map[int]int{}, new(snes.Header)}
 		for _, n := range sizes {
 			b.orig[n] = g.Bytes(n)
 			b.img[n] = append([]byte(nil), b.orig[n]...)
@@ -166,12 +171,26 @@ func C09(r *vf.Run) {
 		img, orig := bf.img[size], bf.orig[size]
 		copy(img[0x7FB0:], raw)
 		copy(orig[0x7FB0:], raw)
-		rom, err := snes.NewROM("t", img)
-		if err != nil {
-			r.Fail("newrom-error", fmt.Sprintf("NewROM failed on %d-byte image: %v", size, err), nil)
-			return
-		}
 		ver, want := expectHeader(raw)
+		var rom *snes.ROM
+		if old := bf.rom[size]; old != nil && tag == "reuse" {
+			// the same ROM (and its embedded Header) parses a second, different header
+			rom = old
+			if err := rom.ReadHeader(); err != nil {
+				r.Fail("readheader-error", fmt.Sprintf("ROM.ReadHeader on a reused ROM: %v", err), vf.Hex(raw))
+				return
+			}
+			tag = fmt.Sprintf("reuse-v%d-after", bf.prevVer[size])
+		} else {
+			var err error
+			rom, err = snes.NewROM("t", img)
+			if err != nil {
+				r.Fail("newrom-error", fmt.Sprintf("NewROM failed on %d-byte image: %v", size, err), nil)
+				return
+			}
+			bf.rom[size] = rom
+		}
+		bf.prevVer[size] = ver
 		if got := rom.Header.HeaderVersion(); got != ver {
 			r.Fail("version-rule", fmt.Sprintf("HeaderVersion()=%d want %d (oldmaker=%02x title[20]=%02x)", got, ver, raw[0x2A], raw[0x24]), vf.Hex(raw))
 		}
@@ -202,11 +221,11 @@ func C09(r *vf.Run) {
 		if buf.Len() != 80 {
 			r.Fail("serialise-length", fmt.Sprintf("Header.WriteHeader produced %d bytes, want 80", buf.Len()), vf.Hex(raw))
 		} else {
-			var h2 snes.Header
+			h2 := bf.scratch // a Header value that has parsed other headers before
 			if err := h2.ReadHeader(bytes.NewReader(buf.Bytes())); err != nil {
 				r.Fail("reparse-error", fmt.Sprintf("re-parse: %v", err), vf.Hex(raw))
-			} else if !reflect.DeepEqual(h2, rom.Header) {
-				r.Fail("reparse-differs", fmt.Sprintf("v%d: serialised header parses back to a different header: %v", ver, diffFields(flattenHeader(&h2), got)), vf.Hex(raw))
+			} else if !reflect.DeepEqual(*h2, rom.Header) {
+				r.Fail("reparse-differs", fmt.Sprintf("v%d: serialised header parses back to a different header: %v", ver, diffFields(flattenHeader(h2), got)), vf.Hex(raw))
 			}
 			// the serialised bytes are the raw ones (v1: extended area zero)
 			exp := append([]byte(nil), raw...)
@@ -240,7 +259,11 @@ func C09(r *vf.Run) {
 					size = 0x8000
 				}
 				raw := mkHeader(g, ver)
-				checkOne(raw, size, bf, "rt")
+				tag := "rt"
+				if k%2 == 1 {
+					tag = "reuse"
+				}
+				checkOne(raw, size, bf, tag)
 				if i < 3 {
 					r.Sample(map[string]interface{}{"version": ver, "image_size": size, "header": vf.Hex(raw)})
 				}
